@@ -197,7 +197,7 @@ Definition value_good (w : world) (it : item) : Prop :=
   | TSwitch => 0 <= b <= INT_MAX
   | TInt => INT_MIN <= b <= INT_MAX
   | TSize => 0 <= b <= LONG_MAX
-  | TDouble => snd (strtod (fmt16 (st_dbl (w_store w) (it_var it)))) = false
+  | TDouble => let r := strtod (fmt16 (st_dbl (w_store w) (it_var it))) in dbl_error (fst r) (snd r) = false
   | TKeyvalue => exists key t, it_sval it = Some key /\ al_get (w_kvs w) (it_kv it) = Some t /\ kv_find t key = Some (Some b)
   | _ => True
   end.
@@ -326,7 +326,8 @@ Proof.
         rewrite ini_sizet_print_udec by exact Hgood. cbn [negb]. rewrite Hit. reflexivity.
       - (* double *)
         assert (Hit : it0 = it) by (apply Hsd; discriminate).
-        destruct (strtod (fmt16 (st_dbl (w_store w) (it_var it)))) as [x e] eqn:Ed. cbn [snd fst] in *. subst e. cbn [negb]. rewrite Hit. reflexivity.
+        destruct (strtod (fmt16 (st_dbl (w_store w) (it_var it)))) as [x e] eqn:Ed. cbn [snd fst] in *. cbv zeta in Hgood. cbn [snd fst] in Hgood.
+        rewrite Hgood. cbn [negb]. rewrite Hit. reflexivity.
       - (* string *)
         assert (Hit : it0 = it) by (apply Hsd; discriminate).
         unfold item_skipped in Esk. rewrite Et in Esk. cbn [file_type orb] in Esk.
